@@ -9,8 +9,10 @@ package main
 import (
 	"bytes"
 	"context"
+	"encoding/binary"
 	"errors"
 	"fmt"
+	"hash/fnv"
 	"os"
 	"sort"
 	"strings"
@@ -416,6 +418,9 @@ func (s *simConn) serve(call hrpc.Call) {
 	if _, ok := call.(*hrpc.Mutate); ok {
 		sv.kind = "mutate"
 	}
+	if _, ok := call.(*hrpc.CheckAndPut); ok {
+		sv.kind = "mutate"
+	}
 	if g, ok := call.(*hrpc.Get); ok && g.SkipBatch() && len(call.Key()) >= 17 &&
 		bytes.Equal(call.Key()[len(call.Key())-17:], make([]byte, 17)) {
 		sv.kind = "probe"
@@ -532,11 +537,37 @@ func (s *simConn) serve(call hrpc.Call) {
 				Family: []byte("f"), Qualifier: []byte("q"), Value: reg.mutateValue}}}}, nil)
 			return
 		}
+		if m, ok := call.(*hrpc.Mutate); ok {
+			if mr, ok := m.ToProto().(*pb.MutateRequest); ok && mr.GetMutation().GetMutateType() == pb.MutationProto_INCREMENT {
+				// the counter's new value: any 64-bit pattern, negative ones included
+				deliver(&pb.MutateResponse{Processed: &t, Result: &pb.Result{Cell: []*pb.Cell{{Row: call.Key(),
+					Family: []byte("f"), Qualifier: []byte("q"), Value: simCounterValue(call.Key())}}}}, nil)
+				return
+			}
+		}
 		deliver(&pb.MutateResponse{Processed: &t}, nil)
 	} else {
 		t := true
 		deliver(&pb.GetResponse{Result: &pb.Result{Exists: &t}}, nil)
 	}
+}
+
+// simCounterValue: what the simulated server answers to an Increment of this row.
+func simCounterValue(key []byte) []byte {
+	h := fnv.New64a()
+	h.Write(key)
+	v := h.Sum64()
+	switch v % 4 {
+	case 0:
+		v = ^uint64(0) // -1
+	case 1:
+		v |= 1 << 63 // negative
+	case 2:
+		v &^= 1 << 63
+	}
+	b := make([]byte, 8)
+	binary.BigEndian.PutUint64(b, v)
+	return b
 }
 
 // metaScan answers a reversed one-row scan `table,key,:` .. `table` (Env.Meta): the greatest
